@@ -7,15 +7,15 @@ from .pandas_common import *
 from . import values as V
 
 FUNCS = ['pyg_base._pandas:_df_fillna', 'pyg_base._pandas:df_fillna', 'pyg_base._pandas:_nona', 'pyg_base._pandas:nona', 'pyg_base._types:is_series', 'pyg_base._types:is_arr']
-BOUNDS = dict(frames = 'two-column frames and 2-d arrays of 0..2 rows (thorough 3), same methods', vectors = 'float Series and 1-d arrays of length 0..4 (thorough 5): which cells are NaN and the values of the others are symbolic (so leading, trailing, interior runs, all-NaN are solver cases)',
+BOUNDS = dict(frames = 'two-column frames and 2-d arrays of 0..2 rows (thorough 3), same methods', vectors = 'float Series and 1-d arrays of length 0..4 (thorough 5): which cells are NaN and the values of the others are symbolic (so leading, trailing, interior runs, all-NaN are solver cases); +-inf among the values for nona / fnna / ffill / ffill_na on up to 2 cells (thorough 3)',
               methods = 'ffill, bfill, a symbolic numeric constant, nona, fnna, ffill_na, ffill_0 and every ordered pair of them', limit = '{None, 1, 2} for ffill / bfill')
 OUTSIDE = ['frames with more than two columns, axis = 1', 'interpolation methods', 'limit with a numeric method (pandas fills the first `limit` NaNs; the statement is silent)', 'vectors longer than 5']
 ASSUMPTIONS = ['pandas replaced by the minipd model (ffill/bfill/fillna with limit, last_valid_index, masks, label slices), validated against the real pandas on all NaN patterns of length <= 3 x limits each run',
                'arrays are modelled by a list-backed stand-in for ndarray; floats are extended reals']
 
-def vec(c, n):
+def vec(c, n, inf = False):
     ts = sorted_stamps(c, 't', n, gap_days = 3)
-    vs = [value(c, 'v%d' % i) for i in range(n)]
+    vs = [(c.float('v%d' % i, allow = (core.FIN, core.NAN, core.PINF, core.NINF), halves = 40) if inf else value(c, 'v%d' % i)) for i in range(n)]
     return ts, vs
 
 def isn(v): return V.is_nan(v)
@@ -51,10 +51,10 @@ def apply(m, cells, limit, const):
     raise ValueError(m)
 
 METHODS = ['ffill', 'bfill', 'const', 'nona', 'fnna', 'ffill_na', 'ffill_0']
-def h_fill(n, methods, limit, array):
+def h_fill(n, methods, limit, array, inf = False):
     def h(c):
         Pm = P()
-        ts, vs = vec(c, n); const = c.float('const', allow = (core.FIN,), halves = 40)
+        ts, vs = vec(c, n, inf); const = c.float('const', allow = (core.FIN,), halves = 40)
         if n: c.cover('a-nan', X.Or([isn(v) for v in vs])); c.cover('a-value', X.Or([X.Not(isn(v)) for v in vs]))
         arg_methods = [const if m == 'const' else m for m in methods]
         if array:
@@ -74,10 +74,11 @@ def h_fill(n, methods, limit, array):
             c.check('input-not-modified', len(rows(src)) == n and all(feq(a[1], b) for a, b in zip(rows(src), snap)))
     return h
 
-def h_nona(n, array):
+def h_nona(n, array, inf = False):
     def h(c):
         Pm = P()
-        ts, vs = vec(c, n)
+        ts, vs = vec(c, n, inf)
+        if inf and n: c.cover('an-infinite-cell', X.Or([minipd._isinf(v) for v in vs]))
         src = (minipd.Arr(vs) if c.mode == 'sym' else __import__('numpy').array([float(v) for v in vs], dtype = float)) if array else mkseries(c, vs, ts)
         r = Pm.nona(src)
         want = [(t, v) for t, v in zip(ts, vs) if not isn(v)]
@@ -138,6 +139,10 @@ def obligations(tier):
                 obs.append(Ob('fill.%s.limit-%s.%d' % (m, limit, n), h_fill(n, [m], limit, False), setup = S, budget_s = 300 if n < 5 else 1500, desc = 'df_fillna(Series of %d, %s, limit=%s)' % (n, m, limit)))
             if n <= 3 or not q: obs.append(Ob('array.%s.%d' % (m, n), h_fill(n, [m], None, True), setup = S, budget_s = 300, desc = 'df_fillna(1-d array of %d, %s) == values of the Series result, input unchanged' % (n, m)))
         obs.append(Ob('nona.series.%d' % n, h_nona(n, False), setup = S, desc = 'nona(Series of %d)' % n)); obs.append(Ob('nona.array.%d' % n, h_nona(n, True), setup = S, desc = 'nona(array of %d)' % n))
+    for n in range(1, 3 if q else 4):                    # +-inf is a value, not a missing cell
+        for m in ('nona', 'fnna', 'ffill', 'ffill_na'):
+            for arr in (False, True): obs.append(Ob('inf.%s.%s.%d' % ('array' if arr else 'series', m, n), h_fill(n, [m], None, arr, True), setup = S, budget_s = 300, desc = 'df_fillna(%s of %d cells incl. +-inf, %s): infinite cells are values, not missing' % ('array' if arr else 'Series', n, m)))
+        for arr in (False, True): obs.append(Ob('inf.nona-function.%s.%d' % ('array' if arr else 'series', n), h_nona(n, arr, True), setup = S, budget_s = 300, desc = 'nona(%s of %d cells incl. +-inf)' % ('array' if arr else 'Series', n)))
     for n in range(0, 3 if q else 4):
         for m in METHODS:
             for limit in ((None, 1) if m in ('ffill', 'bfill') else (None,)):
